@@ -118,6 +118,28 @@ func genPtrCase(r *rng, id string) *ValCase {
 		hold(l)
 	}
 	if r.chance(1, 3) {
+		// a near miss of a valid pointer: a non-canonical spelling that must not alias it
+		l := pick(r, g.locs)
+		var cands []string
+		if i := strings.LastIndex(l, "/"); i >= 0 {
+			last := l[i+1:]
+			head := l[:i+1]
+			if strings.Contains(last, "~0") {
+				cands = append(cands, head+strings.Replace(last, "~0", "~", 1), head+strings.Replace(last, "~0", "~2", 1))
+			}
+			if strings.Contains(last, "~1") {
+				cands = append(cands, head+strings.Replace(last, "~1", "~", 1))
+			}
+			if last != "" && last[0] >= '0' && last[0] <= '9' && !strings.Contains(head[:len(head)-1], "properties") && !strings.Contains(head, "efs/") && !strings.Contains(head, "definitions/") && !strings.Contains(head, "dependen") {
+				cands = append(cands, head+"+"+last, head+"0"+last, head+last+" ", head+"-"+last)
+			}
+			cands = append(cands, l+"~", head+strings.ToUpper(last))
+		}
+		if len(cands) > 0 {
+			hold(pick(r, cands))
+		}
+	}
+	if r.chance(1, 4) {
 		base := pick(r, g.locs)
 		bad := pick(r, []string{base + "/", base + "/nope", base + "/dependentRequired", base + "/allOf/-", base + "/allOf/+0", base + "/allOf/00",
 			base + "/allOf/99", base + "/prefixItems/-1", base + "/properties/~2", base + "/properties/~", base + "/NOT", base + "/not", base + "/items/0/0",
